@@ -24,6 +24,7 @@ const CANDS: [(u64, u64); 8] = [
     (0x0000_0000_ffff_f000, 0x2000), // straddles 4 GiB exactly
 ];
 const STACK: (u64, u64) = (0x7ffd_1000_0000, 0x2_1000);
+const FOLD_GAP: u64 = 0x2000;
 
 #[derive(Clone, Debug)]
 struct Layout {
@@ -32,15 +33,18 @@ struct Layout {
     /// 0 = list in ascending address order; k > 0 = entries 0 and k swapped, the way the dumper
     /// moves the mapping holding the program's entry point to the front of its list
     front: u8,
+    /// every executable mapping carries a folded reserved range of 2 pages behind it: its `size` covers
+    /// it, its system extent does not (what the aggregation of a library with a trailing ---p gap yields)
+    fold: bool,
 }
 
 impl Layout {
     fn to_json(&self) -> Value {
-        json!({"maps": self.maps.iter().map(|(s, z, x)| json!([s, z, x])).collect::<Vec<_>>(), "stack": self.stack, "front": self.front})
+        json!({"maps": self.maps.iter().map(|(s, z, x)| json!([s, z, x])).collect::<Vec<_>>(), "stack": self.stack, "front": self.front, "fold": self.fold})
     }
     fn from_json(v: &Value) -> Option<Layout> {
         let maps = v.get("maps")?.as_array()?.iter().map(|m| Some((m.get(0)?.as_u64()?, m.get(1)?.as_u64()?, m.get(2)?.as_bool()?))).collect::<Option<Vec<_>>>()?;
-        Some(Layout { maps, stack: v.get("stack")?.as_u64()? as u8, front: v.get("front").and_then(|f| f.as_u64()).unwrap_or(0) as u8 })
+        Some(Layout { maps, stack: v.get("stack")?.as_u64()? as u8, front: v.get("front").and_then(|f| f.as_u64()).unwrap_or(0) as u8, fold: v.get("fold").and_then(|f| f.as_bool()).unwrap_or(false) })
     }
     fn mapping_infos(&self) -> Vec<MappingInfo> {
         let mut v: Vec<MappingInfo> = self.maps.iter().map(|(s, z, x)| mapping(*s as usize, *z as usize, perms(true, false, *x), Some("/lib/x.so"))).collect();
@@ -48,6 +52,13 @@ impl Layout {
             v.push(mapping(STACK.0 as usize, STACK.1 as usize, perms(true, true, self.stack == 1), Some("[stack]")));
         }
         v.sort_by_key(|m| m.start_address);
+        if self.fold {
+            for m in v.iter_mut() {
+                if m.is_executable() && m.name.as_ref().map(|n| n != "[stack]").unwrap_or(true) {
+                    m.size += FOLD_GAP as usize; // system_mapping_info keeps the real end
+                }
+            }
+        }
         if self.front > 0 && (self.front as usize) < v.len() {
             v.swap(0, self.front as usize);
         }
@@ -66,6 +77,16 @@ impl Layout {
             v.push((STACK.0, STACK.0 + STACK.1));
         }
         v
+    }
+    /// Address ranges whose classification the statement leaves open: the folded reserved range behind an
+    /// executable mapping (inside the mapping's reported extent, outside what the kernel maps executable).
+    /// Words pointing there may be kept or replaced, but the SAME word must get the same treatment wherever
+    /// it stands on the stack.
+    fn ambiguous_ranges(&self) -> Vec<(u64, u64)> {
+        if !self.fold {
+            return vec![];
+        }
+        self.maps.iter().filter(|m| m.2).map(|m| (m.0 + m.1, m.0 + m.1 + FOLD_GAP)).collect()
     }
     fn all_ranges(&self) -> Vec<(u64, u64)> {
         let mut v: Vec<(u64, u64)> = self.maps.iter().map(|m| (m.0, m.0 + m.1)).collect();
@@ -88,7 +109,10 @@ fn layouts(max_k: usize) -> Vec<Layout> {
             for stack in 0..3u8 {
                 let len = maps.len() + if stack < 2 { 1 } else { 0 };
                 for front in 0..len.max(1) as u8 {
-                    out.push(Layout { maps: maps.clone(), stack, front });
+                    out.push(Layout { maps: maps.clone(), stack, front, fold: false });
+                    if front == 0 && maps.len() <= 2 && maps.iter().any(|m| m.2) {
+                        out.push(Layout { maps: maps.clone(), stack, front, fold: true });
+                    }
                 }
             }
         }
@@ -115,6 +139,12 @@ fn word_alphabet(l: &Layout) -> (Vec<u64>, Vec<u64>) {
         core.push(s);
         core.push(e);
     }
+    for (s, e) in l.ambiguous_ranges() {
+        for w in [s, s + 8, e - 8] {
+            full.push(w);
+        }
+        core.insert(2, s + 8);
+    }
     let dedup = |v: Vec<u64>| {
         let mut seen = std::collections::HashSet::new();
         v.into_iter().filter(|w| seen.insert(*w)).collect::<Vec<_>>()
@@ -140,7 +170,7 @@ fn classify(w: u64, stack: Option<(u64, u64)>, exec: &[(u64, u64)]) -> Option<&'
 }
 
 /// The statement's laws for one call. Returns (class key, message).
-fn sanref(orig: &[u8], res: &[u8], sp_off: usize, stack: Option<(u64, u64)>, exec: &[(u64, u64)], counts: &mut [u64; 5]) -> Option<(String, String)> {
+fn sanref(orig: &[u8], res: &[u8], sp_off: usize, stack: Option<(u64, u64)>, exec: &[(u64, u64)], ambiguous: &[(u64, u64)], seen_amb: &mut Vec<(u64, bool)>, counts: &mut [u64; 5]) -> Option<(String, String)> {
     if orig.len() != res.len() {
         return Some(("length-changed".into(), format!("region length {} became {}", orig.len(), res.len())));
     }
@@ -160,6 +190,22 @@ fn sanref(orig: &[u8], res: &[u8], sp_off: usize, stack: Option<(u64, u64)>, exe
     while o + 8 <= len {
         let w = u64::from_ne_bytes(orig[o..o + 8].try_into().unwrap());
         let r = u64::from_ne_bytes(res[o..o + 8].try_into().unwrap());
+        if ambiguous.iter().any(|(s, e)| w >= *s && w < *e) && classify(w, stack, exec).is_none() {
+            if r != w && r != SENTINEL {
+                return Some(("word-neither-kept-nor-sentinel".into(), format!("word {w:#x} at offset {o} came out as {r:#x}")));
+            }
+            // order independence within one call: the same word, the same verdict
+            let kept = r == w;
+            if let Some((_, k0)) = seen_amb.iter().find(|(w0, _)| *w0 == w) {
+                if *k0 != kept {
+                    return Some(("same-word-treated-differently".into(), format!("word {w:#x} (in the folded reserved range behind an executable mapping) is {} at offset {o} but was {} when it stood elsewhere (alone, or at another position of a stack) under the same mappings", if kept { "kept" } else { "replaced" }, if *k0 { "kept" } else { "replaced" })));
+                }
+            } else {
+                seen_amb.push((w, kept));
+            }
+            o += 8;
+            continue;
+        }
         match classify(w, stack, exec) {
             Some(class) => {
                 counts[match class {
@@ -201,7 +247,7 @@ impl Case {
     }
 }
 
-fn run_case(d: &minidump_writer::ptrace_dumper::PtraceDumper, c: &Case, counts: &mut [u64; 5]) -> Option<(String, String)> {
+fn run_case(d: &minidump_writer::ptrace_dumper::PtraceDumper, c: &Case, seen_amb: &mut Vec<(u64, bool)>, counts: &mut [u64; 5]) -> Option<(String, String)> {
     let sp = (STACK.0 + 0x2000) as usize + c.sp_off;
     let mut buf = c.bytes.clone();
     match guarded(|| d.sanitize_stack_copy(&mut buf, sp, c.sp_off)) {
@@ -210,7 +256,7 @@ fn run_case(d: &minidump_writer::ptrace_dumper::PtraceDumper, c: &Case, counts: 
             Some((kind.into(), format!("sanitize_stack_copy panicked (len {}, sp offset {}): {p}", c.bytes.len(), c.sp_off)))
         }
         Ok(Err(e)) => Some(("returned-error".into(), format!("sanitize_stack_copy returned an error: {e}"))),
-        Ok(Ok(())) => sanref(&c.bytes, &buf, c.sp_off, c.layout.stack_range(), &c.layout.exec_ranges(), counts),
+        Ok(Ok(())) => sanref(&c.bytes, &buf, c.sp_off, c.layout.stack_range(), &c.layout.exec_ranges(), &c.layout.ambiguous_ranges(), seen_amb, counts),
     }
 }
 
@@ -236,13 +282,14 @@ struct Acc {
 
 fn explore_layout(d: &mut minidump_writer::ptrace_dumper::PtraceDumper, l: &Layout, thorough: bool, acc: &mut Acc) {
     d.mappings = l.mapping_infos();
+    let mut seen_amb: Vec<(u64, bool)> = Vec::new();
     let (full, core) = word_alphabet(l);
     let offs: &[usize] = &[0, 1, 7, 8, 9, 15, 16, 24];
     let mut one = |words: &[u64], sp_off: usize, tail: usize, acc: &mut Acc| {
         let c = Case { layout: l.clone(), sp_off, bytes: region(sp_off, words, tail, 0xAB) };
         acc.evals += 1;
         let before = acc.counts;
-        if let Some((k, m)) = run_case(d, &c, &mut acc.counts) {
+        if let Some((k, m)) = run_case(d, &c, &mut seen_amb, &mut acc.counts) {
             if acc.fails.len() < 40 && !acc.fails.iter().any(|f| f.0 == k) {
                 acc.fails.push((k, m, c.to_json()));
             }
@@ -308,7 +355,7 @@ fn explore_lengths(d: &mut minidump_writer::ptrace_dumper::PtraceDumper, acc: &m
                 if len < off {
                     acc.nontrivial += 1;
                 }
-                if let Some((k, m)) = run_case(d, &c, &mut acc.counts) {
+                if let Some((k, m)) = run_case(d, &c, &mut Vec::new(), &mut acc.counts) {
                     if acc.fails.len() < 40 && !acc.fails.iter().any(|f| f.0 == k) {
                         acc.fails.push((k, m, c.to_json()));
                     }
@@ -332,7 +379,17 @@ pub fn run(ctx: &Ctx, rep: &mut Report) {
         let c = Case { layout, sp_off: case.get("sp_off").and_then(|v| v.as_u64()).unwrap_or(0) as usize, bytes: mdv_core::unhex(case.get("bytes").and_then(|v| v.as_str()).unwrap_or("")) };
         rep.evaluations += 1;
         let mut counts = [0u64; 5];
-        if let Some((k, m)) = run_case(&d, &c, &mut counts) {
+        // prime the per-layout record with each word of the case standing alone
+        let mut seen: Vec<(u64, bool)> = Vec::new();
+        let off = (c.sp_off + 7) & !7;
+        let mut o = off;
+        while o + 8 <= c.bytes.len() {
+            let w = u64::from_ne_bytes(c.bytes[o..o + 8].try_into().unwrap());
+            let single = Case { layout: c.layout.clone(), sp_off: 0, bytes: w.to_ne_bytes().to_vec() };
+            let _ = run_case(&d, &single, &mut seen, &mut counts);
+            o += 8;
+        }
+        if let Some((k, m)) = run_case(&d, &c, &mut seen, &mut counts) {
             rep.violation(&k, &m, case.clone());
         }
         return;
